@@ -675,6 +675,39 @@ def guarded_statements_lc(body, env=None, base=("T",)):
         LOOP_CONDS[0] = False
 
 
+def fallthrough(s, env, depth=0):
+    """Formula under which control continues with the statement after s (T when nothing is known).
+    if (c) <leaves>                      -> !c
+    if (c) <leaves> else if (d) <leaves> -> !c && !d
+    if (c) A else <leaves>               -> c"""
+    if s is None or depth > 12:
+        return ("T",)
+    k = s.get("k")
+    if k in ("Return", "Throw", "Break", "Continue"):
+        return ("F",)
+    if k == "Block":
+        f = ("T",)
+        for x in s.get("s", []):
+            f = f_and(f, fallthrough(x, env, depth + 1))
+            if f == ("F",):
+                return f
+        # only early exits constrain what follows; conditions established inside a nested block that completes
+        # normally say nothing once the block is left, unless the block *is* the chain of early exits
+        return f
+    if k == "If":
+        c = cond(s["cond"], env)
+        ft = fallthrough(s.get("then"), env, depth + 1)
+        fe = fallthrough(s.get("else"), env, depth + 1) if s.get("else") is not None else ("T",)
+        if ft == ("F",) and fe == ("F",):
+            return ("F",)
+        if ft == ("F",):
+            return f_and(f_not(c), fe)
+        if fe == ("F",):
+            return f_and(c, ft) if ft != ("T",) else c
+        return ("T",)
+    return ("T",)
+
+
 def guarded_statements(body, env=None, base=("T",)):
     """Yield (stmt_or_expr_statement, guard formula, loop stack) for every *leaf* statement in
     structured order.  Guard = conjunction of enclosing if-conditions (with polarity) and the
@@ -691,13 +724,7 @@ def _gs(n, env, g, loops):
         cur = g
         for s in n.get("s", []):
             yield from _gs(s, env, cur, loops)
-            if s.get("k") == "If" and s.get("else") is None and always_leaves(s.get("then")):
-                cur = f_and(cur, f_not(cond(s["cond"], env)))
-            elif s.get("k") == "If" and s.get("else") is not None:
-                if always_leaves(s["then"]) and not always_leaves(s["else"]):
-                    cur = f_and(cur, f_not(cond(s["cond"], env)))
-                elif always_leaves(s["else"]) and not always_leaves(s["then"]):
-                    cur = f_and(cur, cond(s["cond"], env))
+            cur = f_and(cur, fallthrough(s, env))
         return
     if k == "If":
         c = cond(n["cond"], env)
@@ -719,7 +746,40 @@ def _gs(n, env, g, loops):
         return
     if k == "Switch":
         yield ({"k": "SwitchHead", "node": n, "l": n.get("l")}, g, loops)
-        yield from _gs(n.get("body"), env, g, loops + (n,))
+        # statements of a case group carry `operand == label` when the group cannot be entered by fall-through
+        key = int_key(n.get("cond"), env) if n.get("cond") is not None else None
+        body = stmts(n.get("body"))
+        cur = g
+        prev_leaves = True
+        for s_ in body:
+            x = s_
+            labels = []
+            isdef = False
+            while isinstance(x, dict) and x.get("k") in ("Case", "Default"):
+                if x["k"] == "Case":
+                    labels.append(const_value(x.get("val")))
+                else:
+                    isdef = True
+                x = x.get("sub")
+            if labels or isdef:
+                if len(labels) == 1 and not isdef and labels[0] is not None and prev_leaves and key is not None:
+                    cur = f_and(g, ("cmp", "==", key, str(labels[0])))
+                elif isdef and not labels and prev_leaves and key is not None:
+                    others = []
+                    for y in body:
+                        z = y
+                        while isinstance(z, dict) and z.get("k") in ("Case", "Default"):
+                            if z["k"] == "Case" and const_value(z.get("val")) is not None:
+                                others.append(const_value(z.get("val")))
+                            z = z.get("sub")
+                    cur = f_and(g, *[("cmp", "!=", key, str(v)) for v in others])
+                else:
+                    cur = g
+                yield from _gs(x, env, cur, loops + (n,))
+                prev_leaves = always_leaves(x) if x is not None else False
+            else:
+                yield from _gs(s_, env, cur, loops + (n,))
+                prev_leaves = always_leaves(s_)
         return
     if k in ("Case", "Default"):
         yield from _gs(n.get("sub"), env, g, loops)
